@@ -43,8 +43,11 @@ from . import core
 
 UNIVERSAL = ("mzi_last", "bs_ps")
 BLOCK_NAMES = ["mzi_last", "bs_ps", "bs", "bsphase_ps", "bsH_ps", "bsRy_ps", "bsphase2_ps", "mzi_first", "bsH_phibl",
-               "bsH_fixed", "bs_fixed"]
+               "bsH_fixed", "bs_fixed", "bsnp_ps", "bs_psnp", "mzi_np"]
 NO_FREE_PARAM = ("bsH_fixed", "bs_fixed")          # blocks without any free parameter: `solve` gets x0 == []
+# blocks with a bounded NON-periodic parameter: `bounds` reach L-BFGS-B, which regularly ends on a bound, so a
+# decomposition attempt is abandoned somewhere in the middle and the retry loop of Circuit.decomposition starts again
+BOUNDED = ("bsnp_ps", "bs_psnp", "mzi_np")
 
 
 # ------------------------------------------------------------------------------------------------
@@ -76,6 +79,21 @@ def make_block(name):
         return BS.H()
     if name == "bs_fixed":
         return BS(theta=0.9, phi_tr=0.2)
+    if name == "bsnp_ps":             # beam splitter angle limited to [0, pi] (not periodic), free phase
+        th = P("theta", min_v=0, max_v=math.pi)
+        b = BS(theta=th) // (1, PS(phi=P("phi")))
+        th.set_periodic(False)        # (the BS constructor forces the flag to True: set it afterwards)
+        return b
+    if name == "bs_psnp":             # phase limited to [0, 2pi] without wrap-around
+        ph = P("phi")
+        b = BS(theta=P("theta")) // (1, PS(phi=ph))
+        ph.set_periodic(False)
+        return b
+    if name == "mzi_np":              # the universal MZI with both phases bounded and not periodic
+        b = pcvl.catalog["mzi phase last"].build_circuit()
+        for p in b.get_parameters():
+            p.set_periodic(False)
+        return b
     raise ValueError(name)
 
 
@@ -180,6 +198,35 @@ def make_matrix(kind, n, seed):
             e[o:o + 2, o:o + 2] = [[math.cos(t), -math.sin(t) * np.conj(ph)], [math.sin(t) * ph, math.cos(t)]]
             u = e @ u
         return u
+    if kind == "near":       # an exactly structured matrix times ONE or two rotations by an angle between the tolerance
+        # of the check and sqrt(precision): a pivot within `precision` of modulus 1 next to entries 1000 x precision,
+        # "almost" diagonal / block-diagonal / permutation / triangular inputs (first-order vs second-order smallness)
+        base = ["identity", "diag", "perm", "permphase", "blockdiag", "sparse", "lowerband", "rowperm"][rs.randint(0, 8)]
+        u = make_matrix(base, n, seed + 3)
+        for _ in range(int(rs.randint(1, 3))):
+            a, b = sorted(rs.choice(n, 2, replace=False))
+            t = 10 ** rs.uniform(-4.5, -2.7)
+            ph = np.exp(1j * rs.uniform(0, 2 * math.pi)) if rs.rand() < 0.7 else 1.0
+            e = np.eye(n, dtype=complex)
+            e[a, a] = e[b, b] = math.cos(t)
+            e[a, b] = -math.sin(t) * np.conj(ph)
+            e[b, a] = math.sin(t) * ph
+            u = (e @ u) if rs.rand() < 0.5 else (u @ e)
+        return u
+    if kind == "dust":       # an exactly structured matrix with NEGLIGIBLE but non-zero entries (rotations far below the
+        # precision): the identity skips overwrite non-zero values, also in the array shared by the retry attempts
+        base = ["identity", "diag", "blockdiag", "sparse", "lowerband", "permphase"][rs.randint(0, 6)]
+        u = make_matrix(base, n, seed + 5)
+        for _ in range(int(rs.randint(1, 4))):
+            a, b = sorted(rs.choice(n, 2, replace=False))
+            t = 10 ** rs.uniform(-9, -6.4)
+            ph = np.exp(1j * rs.uniform(0, 2 * math.pi))
+            e = np.eye(n, dtype=complex)
+            e[a, a] = e[b, b] = math.cos(t)
+            e[a, b] = -math.sin(t) * np.conj(ph)
+            e[b, a] = math.sin(t) * ph
+            u = (e @ u) if rs.rand() < 0.5 else (u @ e)
+        return u
     if kind == "lowerband":  # lower-Hessenberg-like: products of blocks in elimination order, zeros in the upper part
         u = np.eye(n, dtype=complex)
         for o in range(n - 2, -1, -1):
@@ -221,6 +268,62 @@ def _leaf_dict(r, c, with_u=True):
     return d
 
 
+def _rows(a):
+    return [[(float(z.real), float(z.imag)) for z in row] for row in np.array(a, dtype=complex)]
+
+
+class _AttemptLog:
+    """Observation-only hooks on `decomposition.decompose_triangle` / `decomposition.solve` (the names
+    Circuit.decomposition and decompose_triangle look up at call time): one record per attempt of the retry loop —
+    the matrix the attempt was handed, the same array object after the attempt, how many cells were solved, whether
+    it succeeded.  The wrapped functions are called unchanged; if the names are not there the log stays `None` and the
+    branches that need it are never hit (reported as a blind generator, not as a finding)."""
+
+    def __init__(self):
+        self.log = None
+        self._undo = []
+
+    def __enter__(self):
+        try:
+            import perceval.components.linear_circuit as LC
+            D = LC.decomposition
+            orig_t, orig_s = D.decompose_triangle, D.solve
+        except Exception:
+            return self
+        self.log = []
+        log = self.log
+
+        def hook_t(u, *a, **k):
+            rec = {"in": _rows(u), "solved": 0, "calls": 0, "ok": False}
+            log.append(rec)
+            try:
+                r = orig_t(u, *a, **k)
+                rec["ok"] = r is not None
+                return r
+            finally:
+                try:
+                    rec["after"] = _rows(u)
+                except Exception:
+                    rec["after"] = None
+
+        def hook_s(*a, **k):
+            r = orig_s(*a, **k)
+            if log:
+                log[-1]["calls"] += 1
+                if r is not None:
+                    log[-1]["solved"] += 1
+            return r
+
+        D.decompose_triangle, D.solve = hook_t, hook_s
+        self._undo = [(D, "decompose_triangle", orig_t), (D, "solve", orig_s)]
+        return self
+
+    def __exit__(self, *exc):
+        for mod, name, val in self._undo:
+            setattr(mod, name, val)
+        return False
+
+
 def observe(spec):
     """Run `Circuit.decomposition` on the spec. Everything returned is plain data."""
     import warnings
@@ -229,6 +332,7 @@ def observe(spec):
     from perceval.components import PS, PERM, Circuit
     t0 = time.time()
     out = {"spec": spec}
+    stage = "setup"
     try:
         block = make_block(spec["block"])
         if isinstance(block, Circuit):
@@ -267,8 +371,23 @@ def observe(spec):
             kw["max_try"] = spec["max_try"]
         pcvl.random_seed(spec["seed"])
         arg = pcvl.Matrix(u0.copy())
-        c = Circuit.decomposition(arg, block, **kw)
+        stage = "call"
+        if spec.get("warmup"):
+            # a long-lived block object (and caller's matrix object) used for an earlier request: another matrix,
+            # or the very same Matrix object, decomposed first with the same `block`
+            first = arg if spec["warmup"] == "same" else pcvl.Matrix(make_matrix("haar", spec["n"], spec["seed"] + 13))
+            w = Circuit.decomposition(first, block, **kw)
+            out["warmup_result"] = "none" if w is None else "circuit"
+        with _AttemptLog() as al:
+            c = Circuit.decomposition(arg, block, **kw)
+        out["attempts"] = al.log
         out["input_changed"] = bool(np.max(np.abs(np.array(arg, dtype=complex) - u0)) > 0)
+        out["input_diff"] = [[i, j] for i in range(u0.shape[0]) for j in range(u0.shape[1])
+                             if complex(np.array(arg, dtype=complex)[i, j]) != complex(u0[i, j])]
+        if isinstance(block, Circuit):
+            out["pattern_after"] = [_leaf_dict(r, cc, False) for r, cc in block]
+        else:
+            out["pattern_after"] = [_leaf_dict(tuple(range(block.m)), block, False)]
         if c is None:
             out["none"] = True
         else:
@@ -277,7 +396,11 @@ def observe(spec):
             out["M_code"] = [[(float(z.real), float(z.imag)) for z in row]
                              for row in np.array(c.compute_unitary(), dtype=complex)]
             out["ntop"] = len(list(c._components)) if hasattr(c, "_components") else None
-    except (AssertionError, ValueError, NotImplementedError, RuntimeError, TypeError) as e:
+    except Exception as e:
+        # any Python exception of the code under test on a legal request is a finding (judge: `raises-…`); an exception
+        # while the harness itself builds the block / the matrix is a harness problem and must not be blamed on the code
+        if stage != "call":
+            raise
         out["exc"] = type(e).__name__
         out["msg"] = str(e)[:200]
     out["t"] = time.time() - t0
@@ -438,6 +561,100 @@ def unc(p):
     return complex(float(core.unrat(p[0])), float(core.unrat(p[1])))
 
 
+def pre_processed(spec, U):
+    """the matrix `Circuit.decomposition` hands to `decompose_triangle`"""
+    if spec.get("h"):
+        U = np.linalg.inv(U)
+    if spec.get("v"):
+        U = np.flip(U)
+    return U
+
+
+def hit(chk, obs, name):
+    """a required shape: counted once in total and once more when it came out of the random generator (and not from
+    the stored corpus), so that a generator that no longer produces the shape is noticed although the corpus does"""
+    chk.branch(name)
+    if not obs.get("from_corpus"):
+        chk.branch(name + "/generated")
+
+
+def judge_attempts(chk, obs, U):
+    """The retry loop (`while count < max_try`), observed attempt by attempt.
+
+    * directly on the implementation (hypothesis `hleave` of `retry_reconstruct_with_error`): every attempt must start
+      from the requested (pre-processed) matrix, up to entries of modulus <= precision replaced by 0 — nothing of an
+      abandoned attempt may reach the next one;
+    * against the Lean model (`inPlace`, op `leave`): the array object after an attempt is the array before it with
+      exactly the entries the model says are written in place (`u[n, j] = 0` of the leading identity skips);
+    * the number of attempts: at most `max_try`, and exactly `max_try` when nothing is returned."""
+    spec = obs["spec"]
+    att = obs.get("attempts")
+    if att is None:
+        return None
+    n = spec["n"]
+    prec = spec.get("precision", 1e-6)
+    max_try = spec.get("max_try", 10)
+    chk.count("attempts", len(att))
+    if len(att) > max_try:
+        return ("broken", "more-attempts-than-max-try", f"{len(att)} attempts although max_try = {max_try}")
+    if obs.get("none") and len(att) != max_try:
+        return ("broken", "gave-up-before-max-try", f"None returned after {len(att)} attempts although max_try = {max_try}")
+    if not att:
+        return None
+    if att[-1]["ok"] != ("flat" in obs) or any(a["ok"] for a in att[:-1]):
+        return ("broken", "attempt-bookkeeping", "the returned value is not that of the last and only successful attempt: "
+                f"{[a['ok'] for a in att]} / {'circuit' if 'flat' in obs else 'none'}")
+    first = cm(att[0]["in"])
+    if not spec.get("warmup"):
+        Upre = pre_processed(spec, U)
+        # U.inv() of the code vs numpy's inverse here: equal to rounding only
+        if first.shape != Upre.shape or np.max(np.abs(first - Upre)) > (1e-12 if spec.get("h") else 0.0):
+            return ("broken", "first-attempt-input", "the matrix handed to the first attempt is not the requested one "
+                    f"(after inverse_h / inverse_v pre-processing): max difference {np.max(np.abs(first - Upre)):.3g}")
+    for k in range(1, len(att)):
+        cur = cm(att[k]["in"])
+        bad = [(i, j) for i in range(n) for j in range(n)
+               if cur[i, j] != first[i, j] and not (cur[i, j] == 0 and abs(first[i, j]) <= prec * (1 + 1e-9))]
+        if bad:
+            i, j = bad[0]
+            return ("broken", "attempt-starts-from-modified-matrix",
+                    f"attempt {k + 1} of the retry loop was started on a matrix that differs from the requested one in "
+                    f"{len(bad)} entries, e.g. [{i},{j}] = {cur[i, j]:.6g} instead of {first[i, j]:.6g} (attempt {k} "
+                    f"had solved {att[k - 1]['solved']} cell(s) before it was abandoned)")
+    # model of the in-place writes, on the first attempts (each costs one request)
+    wrote = False
+    for k, a in enumerate(att[:3]):
+        if a.get("after") is None:
+            continue
+        before, after = cm(a["in"]), cm(a["after"])
+        ok = False
+        for scale in (1.0, 1.0 + 1e-6, 1.0 - 1e-6):
+            rep = chk.lean.ask({"op": "leave", "m": n, "U": core.mat(before), "prec": core.rat(prec * scale),
+                                "ignore": bool(spec.get("ignore", True))})
+            if "err" in rep:
+                return ("broken", "lean-leave", f"model rejected the request: {rep['err']}")
+            want = before.copy()
+            for i, j in rep["zeroed"]:
+                want[i, j] = 0
+            if not rep["other"] and np.array_equal(want, after):
+                ok = True
+                wrote = wrote or bool(rep["zeroed"])
+                break
+        if not ok:
+            diff = [(i, j) for i in range(n) for j in range(n) if want[i, j] != after[i, j]]
+            return ("broken", "attempt-in-place-writes",
+                    f"attempt {k + 1}: the array shared by all attempts differs after the attempt from what the model "
+                    f"predicts (in-place writes {rep['zeroed']}); entries {diff[:6]}")
+    if wrote:
+        hit(chk, obs, "attempt-wrote-in-place")
+        chk.count("wrote_in_place_kind", spec["kind"])
+    if "flat" in obs and len(att) >= 2:
+        hit(chk, obs, "retry-then-circuit")
+        if any(a["solved"] > 0 for a in att[:-1]):
+            hit(chk, obs, "retry-after-partial-attempt")
+    return None
+
+
 def judge(chk, obs):
     """-> None or (kind, signature, text).  Also fills the histograms."""
     spec = obs["spec"]
@@ -466,7 +683,7 @@ def judge(chk, obs):
         if spec["block"] in UNIVERSAL and unrestricted and spec.get("max_try", 10) >= 10:
             return ("violation", "universal-block-none",
                     f"no circuit found within {spec.get('max_try', 10)} tries for the universal block {spec['block']}")
-        return None
+        return judge_attempts(chk, obs, U)
     chk.branch("circuit")
     flat = obs["flat"]
     M_np = numpy_product(flat, n)
@@ -475,6 +692,15 @@ def judge(chk, obs):
         return ("violation", sig, info)
     chk.extra["max_err_over_precision"] = max(chk.extra.get("max_err_over_precision", 0.0),
                                               float(info) / spec.get("precision", 1e-6))
+    if obs.get("pattern_after") is not None and obs["pattern_after"] != obs["pattern"]:
+        return ("broken", "block-template-modified",
+                f"the building block handed to Circuit.decomposition was modified by the call: {obs['pattern']} -> "
+                f"{obs['pattern_after']}")
+    if spec.get("warmup"):
+        hit(chk, obs, "block-reused")
+    r = judge_attempts(chk, obs, U)
+    if r is not None:
+        return r
     # --- structure: only copies of the block, PERMs, phase layer --------------------------------
     v, h = bool(spec.get("v")), bool(spec.get("h"))
     try:
@@ -591,7 +817,7 @@ def judge(chk, obs):
 # generation
 # ------------------------------------------------------------------------------------------------
 KINDS = ["haar", "haar", "haar", "perm", "permphase", "blockdiag", "sparse", "sparse", "lowerband", "diag", "identity",
-         "rowperm", "rowperm", "tiny"]
+         "rowperm", "rowperm", "tiny", "tiny", "near", "near", "dust", "dust"]
 
 
 def gen_spec(rng, max_n, i):
@@ -641,6 +867,10 @@ def gen_spec(rng, max_n, i):
                                           [[None, None]], [[None, 0.5]]])
     if rng.random() < 0.24:
         full_constraint_scenario(rng, spec)
+    elif rng.random() < 0.25:
+        retry_scenario(rng, spec)
+    if rng.random() < 0.12 and not spec.get("scenario"):
+        spec["warmup"] = rng.choice(["other", "same"])
     if r < 0.05:
         spec["malformed"] = rng.choice(["nonunitary", "constraints", "shape", "rectangle"])
         spec["n"] = min(spec["n"], 3)
@@ -648,7 +878,7 @@ def gen_spec(rng, max_n, i):
 
 
 NFREE = {"mzi_last": 2, "bs_ps": 2, "bs": 1, "bsphase_ps": 2, "bsH_ps": 2, "bsRy_ps": 2, "bsphase2_ps": 2,
-         "mzi_first": 2, "bsH_phibl": 2, "bsH_fixed": 0, "bs_fixed": 0}
+         "mzi_first": 2, "bsH_phibl": 2, "bsH_fixed": 0, "bs_fixed": 0, "bsnp_ps": 2, "bs_psnp": 2, "mzi_np": 2}
 SPECIAL_ANGLES = [0.0, math.pi, math.pi / 2]
 
 
@@ -734,24 +964,63 @@ def full_constraint_scenario(rng, spec):
             spec["max_try"] = 2
 
 
+def retry_scenario(rng, spec):
+    """Requests on which single attempts of the retry loop FAIL SOMEWHERE IN THE MIDDLE and a later one succeeds: a
+    block with a bounded non-periodic parameter (L-BFGS-B ends on a bound from an unlucky random start), matrices
+    with enough cells to solve, a generous `max_try`.  Whatever happened in the abandoned attempts, the circuit
+    finally returned must reproduce the requested matrix."""
+    spec["scenario"] = "retry"
+    spec["block"] = rng.choice(BOUNDED)
+    spec["n"] = rng.choice([3, 3, 4]) if spec["n"] < 3 else min(spec["n"], 4)
+    spec["kind"] = rng.choice(["haar", "haar", "haar", "sparse", "blockdiag", "rowperm", "lowerband", "near", "dust"])
+    spec["max_try"] = rng.choice([8, 12, 12, 16])
+    spec.pop("constraints", None)
+    # inverse_h negates every phase / angle: not representable inside a non-periodic range that starts at 0 (the
+    # parameter refuses the value, ValueError) — a contradictory request, not generated; inverse_v is
+    spec.pop("h", None)
+    if rng.random() < 0.5:
+        spec["phase"] = True
+    if rng.random() < 0.15:
+        k = NFREE[spec["block"]]
+        part = rand_values(rng, k)
+        part[rng.randrange(k)] = None
+        spec["constraints"] = [part, [None] * k]
+
+
 def expected_cost(spec):
     """rough relative cost, only used to start the long decompositions first"""
     c = ncells(spec["n"]) + 1
-    if spec.get("scenario"):
+    if spec.get("scenario") == "retry":
+        c *= 4
+    elif spec.get("scenario"):
         c *= 0.5
     elif spec["block"] in ("bs", "mzi_first", "bsH_phibl"):
         c *= 10          # ten full tries before answering None
     if spec["block"] in ("bsphase_ps", "bsphase2_ps"):
+        c *= 2
+    if spec.get("warmup"):
         c *= 2
     if spec["kind"] in ("identity", "diag", "perm", "permphase") and spec.get("ignore", True):
         c *= 0.3
     return c
 
 
+def small_entry_above_tolerance(spec):
+    """the matrix handed to the elimination has an entry above its diagonal that is small (< 3e-3: a unitary can carry
+    it next to a pivot whose modulus is within 1e-5 of 1) but larger than the tolerance of the direct oracle: treating
+    it as negligible is visible in the returned matrix"""
+    if spec.get("malformed"):
+        return False
+    u = pre_processed(spec, spec_matrix(spec))
+    n = u.shape[0]
+    lo = tol_of(spec)
+    return any(lo * 2 < abs(u[i, j]) < 3e-3 for j in range(n) for i in range(j))
+
+
 def signature(spec):
     return (spec["n"], spec["kind"], spec["block"], bool(spec.get("phase")), bool(spec.get("perm")),
             spec.get("ignore", True), bool(spec.get("v")), bool(spec.get("h")), spec.get("merge", True),
-            json.dumps(spec.get("constraints")), spec.get("precision", 1e-6))
+            json.dumps(spec.get("constraints")), spec.get("precision", 1e-6), spec.get("warmup"))
 
 
 # ------------------------------------------------------------------------------------------------
@@ -828,6 +1097,10 @@ def handle(chk, obs, pool_observe=observe, do_shrink=True):
                                                   for c in spec["constraints"]))
     if spec["block"] in NO_FREE_PARAM:
         chk.branch("block-no-free-param")
+    if spec["block"] in BOUNDED:
+        chk.branch("block-bounded-nonperiodic")
+    if small_entry_above_tolerance(spec):
+        hit(chk, obs, "small-entry-above-tolerance" + ("" if "flat" in obs else "-nocircuit"))
     if spec["kind"] == "mesh":
         chk.count("mesh", ("circuit" if "flat" in obs else "none" if obs.get("none") else "exc") + ":" +
                   spec.get("scenario", "?"))
@@ -1019,6 +1292,11 @@ def run(chk: core.Check):
         "tolerance precision·4·(#cells+1): every cell leaves a residue ≤ precision (see tol_of)",
         "the numerical minimiser inside solve is an oracle of the solve model (its observed result is replayed); "
         "res.fun is taken to be f(res.x)",
+        "blocks with a bounded non-periodic parameter (used to make single attempts of the retry loop fail) are not "
+        "combined with inverse_h: the inverted component needs the negated value, which the declared range excludes "
+        "(Parameter raises ValueError)",
+        "the attempts of the retry loop are observed through wrappers around decomposition.decompose_triangle / "
+        "decomposition.solve that call the original functions unchanged",
     ]
     chk.required_branches = ["circuit", "none", "solved-block", "identity-skip", "perm-substitution", "phase-layer",
                              "no-phase-layer", "inverse_v", "inverse_h", "ignore-identity-off", "merge-off",
@@ -1028,12 +1306,22 @@ def run(chk: core.Check):
                              "constraint-full", "constraint-full-used", "constraint-full-none",
                              "constraint-full-rejected-then-fallback", "block-no-free-param",
                              "no-free-param-circuit",
+                             # matrices that are nearly but not exactly structured (first-order small entries)
+                             "small-entry-above-tolerance",
+                             # the retry loop: an attempt abandoned after it had solved cells, then a successful one;
+                             # in-place writes into the array shared by the attempts; a long-lived block object
+                             "block-bounded-nonperiodic", "retry-then-circuit", "retry-after-partial-attempt",
+                             "attempt-wrote-in-place", "block-reused",
+                             # … and the same shapes out of the random generator, not only from the corpus
+                             "small-entry-above-tolerance/generated", "retry-then-circuit/generated",
+                             "retry-after-partial-attempt/generated", "attempt-wrote-in-place/generated",
+                             "block-reused/generated",
                              # solve.py itself against its Lean model
                              "solve-all-imposed-accept", "solve-all-imposed-reject", "solve-no-parameter",
                              "solve-partial", "solve-free"]
     chk.lean = core.LeanDriver("C12")
     rng = chk.rng
-    n_cases = chk.pick(150, 1500)
+    n_cases = chk.pick(200, 1500)
     max_n = chk.pick(5, 6)
     specs = load_corpus()
     ncorpus = len(specs)
@@ -1054,6 +1342,8 @@ def run(chk: core.Check):
         solve_pending = [pool.apply_async(observe_solve, (solve_cases[c::nchunk],)) for c in range(nchunk)]
         for i in range(len(specs)):
             obs = pending.pop(i).get()
+            if i < ncorpus:
+                obs["from_corpus"] = True
             tsum += obs["t"]
             key = specs[i]["block"] + (":none" if obs.get("none") else "")
             by_block[key] = round(by_block.get(key, 0.0) + obs["t"], 1)
